@@ -242,6 +242,15 @@ func init() {
 		}
 		return nil
 	}
+	externals[rt+"CrashNow"] = func(fr *frame, args []value) value {
+		if fr.i.crashArmed {
+			panic(crashUnwind{})
+		}
+		return nil
+	}
+	externals["reflect.DeepEqual"] = func(fr *frame, args []value) value {
+		return deepEqual(fr.i, args[0], args[1], map[[2]*value]bool{})
+	}
 	externals[rt+"RunUntilCrash"] = func(fr *frame, args []value) (res value) {
 		in := fr.i
 		saved := in.crashArmed
